@@ -213,7 +213,7 @@ func loadProgram(dir string) (*Program, error) {
 }
 
 var clauseKinds = map[string]bool{"requires": true, "ensures": true, "invariant": true, "decreases": true,
-	"modifies": true, "assumes": true, "flag": true, "asserts": true}
+	"modifies": true, "assumes": true, "flag": true, "asserts": true, "touches": true}
 
 func (p *Program) parseSpec(pk *packages.Package, fd *ast.FuncDecl) (*SpecInfo, error) {
 	obj, _ := pk.TypesInfo.Defs[fd.Name].(*types.Func)
